@@ -504,6 +504,8 @@ def run_crc5(cfg, tier, seed):
 
 
 # ---- the real token detector: accepted exactly when the CRC5 field is right
+ACCEPT_WINDOW = 16       # cycles after the end of a packet in which the acceptance strobe may come (no latency demanded)
+
 PIDS = dict(OUT=0xE1, IN=0x69, SETUP=0x2D, SOF=0xA5, PING=0xB4)
 
 
@@ -513,7 +515,7 @@ def token_case(model, st_after_pid, pidname, b1, b2, log=None):
     cur.step(rx_active=1, rx_valid=1, rx_data=b2)
     cur.step(rx_active=1)
     seen = None
-    for _ in range(4):
+    for _ in range(ACCEPT_WINDOW):          # no latency is demanded: generous window, first strobe counts
         o = cur.step()
         if o.new_token or o.new_frame:
             seen = o; break
@@ -563,7 +565,7 @@ def run_token(cfg, tier, seed):
     run.samples.append([dict(pid=pidname, b1="0x3a", b2="0x3d")])
     return run.result(goals=["accepted", "rejected"], depth=9,
                       assumptions=["token packets arrive over UTMI as PID, two bytes, then rx_active falls; one byte per cycle, full speed",
-                                   "acceptance = new_token / new_frame strobe within 4 cycles after the end of the packet"])
+                                   "acceptance = new_token / new_frame strobe within 16 cycles after the end of the packet"])
 
 
 # ---- the real data-packet receiver: packet_complete exactly when the CRC16 field is right
@@ -594,9 +596,10 @@ def datarx_case(model, st, payload, lo, hi, log=None):
     cur.step(rx_active=1, rx_valid=1, rx_data=hi)
     cur.step(rx_active=1)
     complete = mismatch = False
-    for _ in range(4):
+    for _ in range(ACCEPT_WINDOW):
         o = cur.step()
         complete |= bool(o.packet_complete); mismatch |= bool(o.crc_mismatch)
+        if complete: break
     good = crc_of_bytes("usb2_crc16", payload) == (lo | (hi << 8))
     det = dict(payload=[hex(b) for b in payload], crc_bytes=[hex(lo), hex(hi)], expected_crc16=hex(crc_of_bytes("usb2_crc16", payload)),
                packet_complete=complete, crc_mismatch=mismatch)
@@ -629,7 +632,7 @@ def run_datarx(cfg, tier, seed):
     run.samples.append([dict(payload=cfg["payload"], crc=hex(good))])
     return run.result(goals=["accepted", "rejected"], depth=len(payload) + 11,
                       assumptions=["data packets arrive over UTMI as PID, payload, two CRC bytes (low byte first), then rx_active falls; one byte per cycle",
-                                   "acceptance = packet_complete strobe within 4 cycles after the end of the packet"])
+                                   "acceptance = packet_complete strobe within 16 cycles after the end of the packet"])
 
 
 # ===================================================================================== engine interface
